@@ -49,6 +49,13 @@ impl EventGen for SvgElement {
             "for" => ForElement(self.clone()).generate_events(context),
             "g" | "symbol" => GroupElement(self.clone()).generate_events(context),
             _ => {
+                if self.name == "svg" && self.has_attr("xmlns") {
+                    // A namespaced <svg> - with content or as an empty element - is
+                    // foreign content: copied as it is.
+                    let res = Ok((OutputList::verbatim(self.all_events(context)), None));
+                    context.dec_depth()?;
+                    return res;
+                }
                 if let Some((start, end)) = self.event_range {
                     if start != end {
                         let res = Container(self.clone()).generate_events(context);
